@@ -870,10 +870,14 @@ func checkVerifierHelpers(c *Ctx, verifier, info, pad *ssa.Function) {
 		for _, b := range info.Blocks {
 			for _, ins := range b.Instrs {
 				lk, ok := ins.(*ssa.Lookup)
-				if !ok || !lk.CommaOk || !exprIsGlobalOfType(w, w.Expr(lk.X), attestPkg, "map[crypto.Hash][]byte") {
+				if !ok || !isHashKeyedGlobal(w, lk.X) {
 					continue
 				}
 				nLook++
+				if !lk.CommaOk {
+					c.Bad("R4.verifier", "hash info|missing identifier is an error ("+shortName(w.Expr(lk.X))+")", w.Pos(lk.Pos()), "the digest-identifier table is read without testing that the hash has an entry: a hash without identifier is verified against an empty prefix")
+					continue
+				}
 				okv := extractOfV(lk, 1)
 				good := false
 				for _, r := range liveReturns(info) {
@@ -889,7 +893,56 @@ func checkVerifierHelpers(c *Ctx, verifier, info, pad *ssa.Function) {
 				c.Check(good && w.Expr(lk.Index) == "p0", "R4.verifier", "hash info|missing identifier is an error ("+shortName(w.Expr(lk.X))+")", w.Pos(lk.Pos()), "comma-ok lookup by the hash; !ok returns an error", "a hash without a digest identifier in this table is not refused")
 			}
 		}
-		c.Floor("R4.verifier", nLook, 2, "digest-identifier table lookups")
+		c.Floor("R4.verifier", nLook, 1, "digest-identifier table lookups")
+		// the two identifiers handed back are the two encodings looked up for this hash: on every return of a looked-up
+		// value, results 1 and 2 are the elements of two different tables, or two different fields of one element
+		origin := func(v ssa.Value) string {
+			v = throughCell(strip(v))
+			fld := ""
+			if fv, ok := v.(*ssa.Field); ok {
+				fld, v = "."+fieldName(fv.X.Type(), fv.Field), throughCell(strip(fv.X))
+			}
+			if ld, ok := v.(*ssa.UnOp); ok && ld.Op == token.MUL {
+				if fa, isFA := ld.X.(*ssa.FieldAddr); isFA {
+					fld = "." + fieldName(fa.X.Type(), fa.Field)
+					if al, isAl := fa.X.(*ssa.Alloc); isAl {
+						if sts, okS := cellStores(al); okS && len(sts) == 1 {
+							v = throughCell(strip(sts[0].Val))
+						}
+					}
+				}
+			}
+			ex, ok := v.(*ssa.Extract)
+			if !ok || ex.Index != 0 {
+				return ""
+			}
+			lk, ok := ex.Tuple.(*ssa.Lookup)
+			if !ok || !lk.CommaOk || !isHashKeyedGlobal(w, lk.X) || w.Expr(lk.Index) != "p0" {
+				return ""
+			}
+			return w.Expr(lk.X) + fld
+		}
+		nPair := 0
+		for _, r := range liveReturns(info) {
+			if len(r.Results) != 4 {
+				continue
+			}
+			for _, l1 := range w.Leaves(r.Results[1], r) {
+				if isNilConst(l1.Val) {
+					continue
+				}
+				for _, l2 := range w.Leaves(r.Results[2], r) {
+					if isNilConst(l2.Val) {
+						continue
+					}
+					nPair++
+					o1, o2 := origin(l1.Val), origin(l2.Val)
+					c.Check(o1 != "" && o2 != "" && o1 != o2, "R4.verifier", "hash info|the two identifiers are the two looked-up encodings", w.Pos(r.Pos()), o1+" and "+o2,
+						"the identifiers handed to the verifier are not the elements of the two digest-identifier tables for this hash: "+w.Short(l1.Val)+" / "+w.Short(l2.Val))
+				}
+			}
+		}
+		c.Floor("R4.verifier", nPair, 1, "returns of looked-up identifiers")
 		// inLen mismatch -> error
 		okLen := false
 		for _, r := range liveReturns(info) {
@@ -944,4 +997,18 @@ func checkVerifierHelpers(c *Ctx, verifier, info, pad *ssa.Function) {
 		}
 		c.Check(ok, "R4.verifier", "encrypt|m^E mod N with the key's own exponent and modulus", w.FnPos(callee), "c.Exp(m, big.NewInt(int64(pub.E)), pub.N)", "the public-key operation does not use the device key's own exponent and modulus (e.g. a hard-wired 65537)")
 	}
+}
+
+// isHashKeyedGlobal: v is a load of a package-level map of the attestation package keyed by crypto.Hash.
+func isHashKeyedGlobal(w *World, v ssa.Value) bool {
+	ld, ok := v.(*ssa.UnOp)
+	if !ok {
+		return false
+	}
+	g, ok := ld.X.(*ssa.Global)
+	if !ok || g.Pkg == nil || !strings.HasSuffix(g.Pkg.Pkg.Path(), attestPkg) {
+		return false
+	}
+	m, ok := g.Type().(*types.Pointer).Elem().Underlying().(*types.Map)
+	return ok && namedIs(m.Key(), "crypto", "Hash")
 }
